@@ -348,7 +348,7 @@ def rkn_case(rep):
     rep.sample({'case': name, 'free_variables': 'x0, v0, dt, k'})
 
 
-def verlet_case(rep, M, qt, kind='verlet'):
+def verlet_case(rep, M, qt, kind='verlet', nt='LEGENDRE'):
     from pySDC.implementations.sweeper_classes.verlet import verlet as verlet_cls
     from pySDC.implementations.sweeper_classes.boris_2nd_order import boris_2nd_order
 
@@ -356,7 +356,7 @@ def verlet_case(rep, M, qt, kind='verlet'):
     SymOsc_ = SymOsc if kind == 'verlet' else SymOscB
     j0 = 1 if kind == 'verlet' else 0  # the Boris sweeper also carries the column of the start value (explicit part)
     rep.func(verlet.update_nodes, verlet.integrate, verlet.compute_end_point)
-    name = f'{kind}/M{M}/{qt}'
+    name = f'{kind}/M{M}/{qt}' + ('' if nt == 'LEGENDRE' else f'/{nt}')
     kv, dtv = z3.Real('k'), z3.Real('dt')
     if kind == 'boris':
         # the Boris sweeper multiplies its node-to-node matrices in floats (SQ = S Q): its update equals the 0-to-node form only up to rounding, so the
@@ -366,7 +366,7 @@ def verlet_case(rep, M, qt, kind='verlet'):
 
     def setup(dt, k, vals, float_mode=False):
         L = cm.make_level(SymOsc_, {'k': k, 'dtype': (np.dtype('float64') if float_mode else sp.ODT)}, verlet,
-                          {'num_nodes': M, 'quad_type': qt}, dt)
+                          {'num_nodes': M, 'quad_type': qt, 'node_type': nt}, dt)
         P = L.prob
         for m in range(M + 1):
             u = P.dtype_u(P.init)
@@ -403,6 +403,10 @@ def verlet_case(rep, M, qt, kind='verlet'):
         r = p.result
         mt = r['mats']
         Q, QT, Qx, QQ = mt['Q'], mt['QT'], mt['Qx'], mt['QQ']
+        # the second-order matrix the specification is stated with: twice the collocation matrix, Q Q (for Gauss-Lobatto nodes of the LEGENDRE family
+        # the sweeper documents the Lobatto IIIA-IIIB pair instead)
+        if kind == 'verlet' and not (nt == 'LEGENDRE' and qt == 'LOBATTO'):
+            rep.side(f'{name}:second-order-matrix-is-Q-times-Q', bool(np.allclose(QQ, Q @ Q, atol=1e-14, rtol=0)), {'QQ': QQ.tolist(), 'Q@Q': (Q @ Q).tolist()})
         fold = [-kv * zv[f'p{m}'] for m in range(M + 1)]
         fnew = [fold[0]] + [-kv * x for x in r['pos']]
         eqs = []
